@@ -5,6 +5,7 @@ package main
 
 import (
 	"fmt"
+	"go/ast"
 	"go/token"
 	"go/types"
 	"sort"
@@ -378,6 +379,8 @@ type tr struct {
 	returns   []string
 	retBlocks []*ssa.BasicBlock
 	ownTg     map[string][]modTarget
+	specFacts map[string]bool
+	stopped   bool
 
 	defers []*deferRec
 
@@ -412,7 +415,7 @@ func newTr(eng *Engine, fn *ssa.Function) *tr {
 		heapAt: map[*ssa.BasicBlock]map[string]string{}, heapIn: map[*ssa.BasicBlock]map[string]string{}, heapN: map[string]int{}, heap0: map[string]string{}, heapSorts: map[string]string{},
 		oblNames: map[string]int{}, loopHdr: map[*ssa.BasicBlock]int{}, loopBody: map[*ssa.BasicBlock]map[*ssa.BasicBlock]bool{}, loopState: map[*ssa.BasicBlock]*loopCut{}, callCount: map[string]int{},
 		unknownCallees: map[string]bool{}, trustedUsed: map[string]bool{}, contractsUsed: map[string]bool{}, abstracted: map[string]int{},
-		escapes: map[ssa.Value]bool{}, taint: map[ssa.Value]map[ssa.Value]bool{}, letCache: map[string]*sv{}}
+		escapes: map[ssa.Value]bool{}, taint: map[ssa.Value]map[ssa.Value]bool{}, letCache: map[string]*sv{}, specFacts: map[string]bool{}}
 	t.fnKey = fn.String()
 	t.own = eng.specs.Funcs[t.fnKey]
 	if fn.Pkg != nil {
@@ -790,7 +793,7 @@ func (t *tr) typeFacts(guard, term string, ty types.Type) {
 			t.assume(guard, fmt.Sprintf("(or (= %s nullloc) (and (= (ltyp %s) %d) (= (lcell %s) 0) (> (lref %s) 0)))", term, term, tag, term, term))
 		}
 	case *types.Interface:
-		t.assume(guard, fmt.Sprintf("(and (>= (ityp %s) 0) (=> (= (ityp %s) 0) (= %s niliface)))", term, term, term))
+		t.assume(guard, fmt.Sprintf("(iface_wf %s)", term))
 	case *types.Slice:
 		t.assume(guard, fmt.Sprintf("(and (<= 0 (soff %s)) (<= 0 (slen %s)) (<= (slen %s) (scap %s)) (<= (scap %s) 72057594037927936) (=> (> (scap %s) 0) (> (sref %s) 0)) (>= (sref %s) 0))", term, term, term, term, term, term, term, term))
 		if _, isPtr := u.Elem().Underlying().(*types.Pointer); isPtr && !t.eng.arrayElem[types.TypeString(u.Elem(), nil)] {
@@ -1158,6 +1161,7 @@ func (t *tr) run() (err error) {
 	t.oldHeaps = cur // entry heaps: filled lazily with v0 versions (never overwritten: blocks copy)
 	t.entryEnv = t.ownEnv(nil)
 	if t.own != nil {
+		t.refinesPre()
 		for _, r := range t.own.Requires {
 			term, e := t.evalBool(r.Expr, t.entryEnv, t.entryHeaps(), t.entryHeaps())
 			if e != nil {
@@ -1170,6 +1174,9 @@ func (t *tr) run() (err error) {
 
 	order := t.rpo()
 	for _, b := range order {
+		if t.stopped {
+			break
+		}
 		t.curBlock = b
 		var heaps map[string]string
 		if b == fn.Blocks[0] {
@@ -1608,6 +1615,59 @@ func (t *tr) backEdge(b, s *ssa.BasicBlock, heaps map[string]string, pos token.P
 		v, err := t.evalInt(st.ls.Decreases.Expr, env, heaps, t.oldHeaps)
 		if err == nil {
 			t.oblige("loop", fmt.Sprintf("loop[%d].decr", st.k), cond, fmt.Sprintf("(and (>= %s 0) (< %s %s))", st.decr0, v, st.decr0), pos)
+		}
+	}
+}
+
+// refinesPre: behavioural subtyping, precondition half. Each `requires` of the implementation must follow from the
+// interface method's `requires` (read through the ghost abstractions). Clauses that are object invariants (typeinv)
+// are exempt: they hold at every interface call by the constructor/preservation/writers argument.
+func (t *tr) refinesPre() {
+	for _, key := range t.own.Refines {
+		ifs := t.eng.specs.Funcs["invoke:"+key]
+		if ifs == nil || len(ifs.Params) != len(t.fn.Params) {
+			continue
+		}
+		renv := &senv{t: t, vars: map[string]*sv{}, lets: map[string]ast.Expr{}, pkg: t.pkg, abstract: true}
+		for i, p := range t.fn.Params {
+			renv.vars[ifs.Params[i]] = t.svOfTerms(t.val[p], p.Type())
+		}
+		var hyps []string
+		for _, r := range ifs.Requires {
+			term, err := t.evalBool(r.Expr, renv, t.oldHeaps, t.oldHeaps)
+			if err != nil {
+				t.fatalf("refines %s requires %s: %v", key, r.Label, err)
+				continue
+			}
+			hyps = append(hyps, term)
+		}
+		// the receiver of an interface call is never nil, and its dynamic type is this implementation
+		if len(t.fn.Params) > 0 && leafSort(t.fn.Params[0].Type()) == "loc" {
+			hyps = append(hyps, fmt.Sprintf("(not (= %s nullloc))", t.val[t.fn.Params[0]][0]))
+		}
+		hyp := "true"
+		if len(hyps) > 0 {
+			hyp = "(and " + strings.Join(hyps, " ") + ")"
+		}
+		for _, r := range t.own.Requires {
+			exempt := false
+			ast.Inspect(r.Expr, func(n ast.Node) bool {
+				if ce, ok := n.(*ast.CallExpr); ok {
+					if id, ok := ce.Fun.(*ast.Ident); ok && t.eng.specs.TypeInvs[id.Name] {
+						exempt = true
+					}
+				}
+				return true
+			})
+			if exempt {
+				t.abstractf("object invariant in %s assumed at interface calls (%s)", r.Label, key)
+				continue
+			}
+			term, err := t.evalBool(r.Expr, t.entryEnv, t.oldHeaps, t.oldHeaps)
+			if err != nil {
+				continue
+			}
+			t.oblige("refines", fmt.Sprintf("refines/%s.pre/%s", shortName(key), r.Label), "true", fmt.Sprintf("(=> %s %s)", hyp, term), t.fn.Pos())
 		}
 	}
 }
